@@ -49,6 +49,8 @@ pub struct TlsCase {
     /// the client hands the handshake response and every command to its TLS layer separately, so
     /// that each travels in a record of its own
     pub record_per_command: bool,
+    /// (index of the server's write() call, error kind 100/101/102): fails once, takes no bytes
+    pub write_fault: Option<(u64, u8)>,
 }
 
 pub fn run_tls(m: &TlsMaterial, c: &TlsCase) -> Result<TlsObs, String> {
@@ -111,6 +113,7 @@ pub fn run_tls(m: &TlsMaterial, c: &TlsCase) -> Result<TlsObs, String> {
     w.close_notify = c.close_notify;
     w.ssl_seq = c.seqs.0;
     w.raw_limit = c.raw_limit;
+    w.write_fault = c.write_fault;
     if c.record_per_command && c.app_override.is_none() {
         w.app_chunks = chunks;
     }
@@ -386,7 +389,7 @@ pub fn run(ctx: &Ctx) -> Report {
         if quit {
             cmds.push(Cmd::quit());
         }
-        let c = TlsCase { tls13, with_cert, server_mode: mode, user: CANARY_USER.to_vec(), cmds, scripts, first_cut: cut, cycle: vec![], write_limit: usize::MAX, close_notify: true, raw_limit: None, hs_variant: 0, app_override: None, seqs: (1, 2), auth_reject: None, record_per_command: false };
+        let c = TlsCase { tls13, with_cert, server_mode: mode, user: CANARY_USER.to_vec(), cmds, scripts, first_cut: cut, cycle: vec![], write_limit: usize::MAX, close_notify: true, raw_limit: None, hs_variant: 0, app_override: None, seqs: (1, 2), auth_reject: None, record_per_command: false, write_fault: None };
         let o = match run_tls(mref, &c) {
             Ok(o) => o,
             Err(e) => {
@@ -429,7 +432,7 @@ pub fn run(ctx: &Ctx) -> Report {
             cmds.push(Cmd::quit());
         }
         let first_cut = if rng.bool() { rng.range(1, 60) as usize } else { 0 };
-        let c = TlsCase { tls13, with_cert, server_mode: mode, user: CANARY_USER.to_vec(), cmds, scripts, first_cut, cycle, write_limit: wl, close_notify, raw_limit: None, hs_variant: if rng.bool() { rng.next() | 1 } else { 0 }, app_override: None, seqs: (1, 2), auth_reject: None, record_per_command: rng.bool() };
+        let c = TlsCase { tls13, with_cert, server_mode: mode, user: CANARY_USER.to_vec(), cmds, scripts, first_cut, cycle, write_limit: wl, close_notify, raw_limit: None, hs_variant: if rng.bool() { rng.next() | 1 } else { 0 }, app_override: None, seqs: (1, 2), auth_reject: None, record_per_command: rng.bool(), write_fault: None };
         let o = match run_tls(mref, &c) {
             Ok(o) => o,
             Err(e) => {
@@ -444,6 +447,52 @@ pub fn run(ctx: &Ctx) -> Report {
             rep.sample(d());
         }
         judge(mref, &c, &o, rep, &d);
+    });
+    rep.merge(r);
+
+    // ---- (b1) one transient error (Interrupted / WouldBlock / TimedOut) on one write() of the server,
+    //      commands and QUIT pipelined in one record: if run_on returns Ok, the client must have
+    //      decrypted exactly what the plaintext run produced (nothing may stay queued in the TLS layer)
+    let n = ctx.n(600, 10_000);
+    let r = par_cases(ctx, "C18", "transient-write-errors", n, |rng, i, rep| {
+        let ncmd = rng.range(1, 4) as usize;
+        let (mut cmds, scripts) = tls_script(rng, ncmd);
+        cmds.push(Cmd::quit());
+        let mut c = TlsCase { tls13: rng.bool(), with_cert: false, server_mode: 0, user: CANARY_USER.to_vec(), cmds, scripts, first_cut: 0, cycle: vec![], write_limit: usize::MAX, close_notify: false, raw_limit: None, hs_variant: 0, app_override: None, seqs: (1, 2), auth_reject: None, record_per_command: rng.chance(1, 3), write_fault: None };
+        let dry = match run_tls(mref, &c) {
+            Ok(o) => o,
+            Err(e) => {
+                rep.inconclusive.push(format!("TLS harness error: {}", e));
+                return;
+            }
+        };
+        let kind = 100 + (i % 3) as u8;
+        c.write_fault = Some((rng.below(dry.world.nwrite.max(1)), kind));
+        let o = match run_tls(mref, &c) {
+            Ok(o) => o,
+            Err(e) => {
+                rep.inconclusive.push(format!("TLS harness error: {}", e));
+                return;
+            }
+        };
+        rep.evaluations += 1;
+        let kname = ["Interrupted", "WouldBlock", "TimedOut"][(kind - 100) as usize];
+        rep.counters.class(format!("transient {} on a server write over TLS -> {}", kname, o.outcome.class()));
+        let d = || J::obj().set("fault", format!("{} on the server's write() #{:?} of {}", kname, c.write_fault.map(|f| f.0), dry.world.nwrite)).set("commands", kinds_summary(&c.cmds)).set("a_record_per_command", c.record_per_command).set("outcome", o.outcome.describe());
+        if i < 1 {
+            rep.sample(d());
+        }
+        if !o.world.write_fault_hit {
+            rep.counters.inc("transient_write_fault_not_reached");
+            return;
+        }
+        if o.outcome == Outcome::Ok || matches!(o.outcome, Outcome::Panic { .. }) {
+            // the server carried on: everything C18 demands of an undisturbed connection holds
+            judge(mref, &c, &o, rep, &d);
+            rep.counters.inc("transient_write_errors_survived_and_judged");
+        } else {
+            rep.counters.inc("transient_write_errors_ending_the_connection");
+        }
     });
     rep.merge(r);
 
@@ -466,7 +515,7 @@ pub fn run(ctx: &Ctx) -> Report {
         if !close_notify {
             cmds.push(Cmd::quit());
         }
-        let c = TlsCase { tls13: rng.bool(), with_cert: rng.bool(), server_mode: 0, user: CANARY_USER.to_vec(), cmds, scripts: m.conv.scripts.clone(), first_cut: if rng.bool() { rng.range(1, 60) as usize } else { 0 }, cycle: if rng.bool() { vec![] } else { vec![rng.range(1, 2000) as usize] }, write_limit: wl, close_notify, raw_limit: None, hs_variant: 0, app_override: None, seqs: (1, 2), auth_reject: None, record_per_command: rng.bool() };
+        let c = TlsCase { tls13: rng.bool(), with_cert: rng.bool(), server_mode: 0, user: CANARY_USER.to_vec(), cmds, scripts: m.conv.scripts.clone(), first_cut: if rng.bool() { rng.range(1, 60) as usize } else { 0 }, cycle: if rng.bool() { vec![] } else { vec![rng.range(1, 2000) as usize] }, write_limit: wl, close_notify, raw_limit: None, hs_variant: 0, app_override: None, seqs: (1, 2), auth_reject: None, record_per_command: rng.bool(), write_fault: None };
         let o = match run_tls(mref, &c) {
             Ok(o) => o,
             Err(e) => {
@@ -490,7 +539,7 @@ pub fn run(ctx: &Ctx) -> Report {
     let r = par_cases(ctx, "C18", "refusals", n, |rng, i, rep| {
         let mode = if i % 2 == 0 { 3 } else { 1 };
         let (cmds, scripts) = tls_script(rng, 2);
-        let c = TlsCase { tls13: rng.bool(), with_cert: false, server_mode: mode, user: CANARY_USER.to_vec(), cmds, scripts, first_cut: rng.below(80) as usize, cycle: if rng.bool() { vec![] } else { vec![rng.range(1, 40) as usize] }, write_limit: usize::MAX, close_notify: true, raw_limit: None, hs_variant: 0, app_override: None, seqs: (1, 2), auth_reject: None, record_per_command: false };
+        let c = TlsCase { tls13: rng.bool(), with_cert: false, server_mode: mode, user: CANARY_USER.to_vec(), cmds, scripts, first_cut: rng.below(80) as usize, cycle: if rng.bool() { vec![] } else { vec![rng.range(1, 40) as usize] }, write_limit: usize::MAX, close_notify: true, raw_limit: None, hs_variant: 0, app_override: None, seqs: (1, 2), auth_reject: None, record_per_command: false, write_fault: None };
         let o = match run_tls(mref, &c) {
             Ok(o) => o,
             Err(e) => {
